@@ -558,4 +558,42 @@ theorem reflash_reissued (pool : Slice) (ms : List Msg) (mode : RelayMode) (hp :
 example : (serveRelay ⟨[⟨b "x", b "y", 1, true⟩], 0⟩ (encode [⟨b "ok", b "saved", 65, false⟩, ⟨b "n", b "1", 66, false⟩]) .same).2.2 =
     some (some (encode [⟨b "ok", b "saved", 65, false⟩, ⟨b "n", b "1", 66, false⟩])) := by decide
 
+/-! ### The pooled `Redirect` -/
+
+/-- a chain of builder calls on a pooled `Redirect` only ever looks at / extends the visible messages -/
+theorem pooled_run_visible (p : Pooled) (ops : List Op) :
+    (p.run ops).visible = ops.foldl Op.apply p.visible := by
+  unfold Pooled.run
+  induction ops generalizing p with
+  | nil => rfl
+  | cons op r ih => simp only [List.foldl_cons]; rw [ih]; rfl
+
+/-- whatever earlier requests did, `release` hands the `Redirect` back with no visible message -/
+theorem pooled_after_visible (p : Pooled) (history : List (List Op)) (hp : p.visible = []) :
+    (p.after history).visible = [] := by
+  unfold Pooled.after
+  induction history generalizing p with
+  | nil => exact hp
+  | cons ops r ih => simp only [List.foldl_cons]; exact ih _ rfl
+
+/-- `script_meets_spec_pooled`: `script_meets_spec` for a `Redirect` drawn from the pool in ANY state
+    the code can leave it in — after any history of earlier requests (any chains of `With` /
+    `WithInput()` calls, redirect completed or not: `release()` re-slices `messages` to `[:0]` either
+    way) and with any leftover elements in the backing array: the messages a request attaches are its
+    own `runOps ops`, hence exactly `expectedFlash` of ITS `With` calls and `expectedOld` of ITS input. -/
+theorem script_meets_spec_pooled (p : Pooled) (history : List (List Op)) (hp : p.visible = [])
+    (ops : List Op) (inputs : List (Bytes × Bytes)) (hperm : ∀ o ∈ inputsOf ops, o.Perm inputs) :
+    ((p.after history).run ops).visible = runOps ops ∧
+    (((p.after history).run ops).visible).filter (!·.old) = expectedFlash (callsOf ops) ∧
+    ((((p.after history).run ops).visible).filter (·.old)).Perm (expectedOldN (inputsOf ops).length inputs) := by
+  have h : ((p.after history).run ops).visible = runOps ops := by
+    rw [pooled_run_visible, pooled_after_visible p history hp]; rfl
+  rw [h]
+  exact ⟨rfl, script_meets_spec ops inputs hperm⟩
+
+-- request 1 attached a password and never redirected; request 2's messages are its own
+example : ((Pooled.after ⟨[], [⟨b "x", b "y", 1, false⟩]⟩
+      [[.flash (b "secret") (b "s") 3, .input [(b "password", b "hunter2"), (b "email", b "a@b")]]]).run
+      [.input [(b "text", b "hello")]]).visible = [⟨b "text", b "hello", 0, true⟩] := by decide
+
 end C12
